@@ -30,6 +30,7 @@ func checkC17(c *Ctx) {
 
 	getFX(c)
 	c17PKCS12(c)
+	c17KDF(c)
 	c17Verify(c)
 	c17Envelope(c)
 	c17Asserts(c)
@@ -440,5 +441,59 @@ func c17Unpad(c *Ctx) {
 			g := evalGuardSinks(c.P, d, a2, spec, []ssa.Instruction{cbc})
 			c.Check(g.OK, "B-PRE-C17", fname(d), "IV is one block before NewCBCDecrypter", g.Why, g.Why, g.Pos)
 		}
+	}
+}
+
+// c17KDF: the PKCS#12 key derivation consumes the whole password and salt (RFC 7292 B.2 steps 2-4 and 6A)
+func c17KDF(c *Ctx) {
+	rule := "K-C17-kdf"
+	fill := c.Fn("pkcs12", "fillWithRepeats")
+	kdf := c.Fn("pkcs12", "pbkdf")
+	if fill == nil || kdf == nil {
+		c.Missing(rule, "pkcs12.fillWithRepeats/pbkdf", "functions", "not found")
+		return
+	}
+	lb := &LB{p: c.P, f: fill, UsedContracts: map[string]bool{}}
+	lb.extra, _ = callerFacts(c.P, fill)
+	n := 0
+	for _, b := range fill.Blocks {
+		ret, ok := b.Instrs[len(b.Instrs)-1].(*ssa.Return)
+		if !ok || len(ret.Results) != 1 {
+			continue
+		}
+		if cst, isC := ret.Results[0].(*ssa.Const); isC && cst.Value == nil {
+			// the empty string: allowed only for an empty pattern
+			ok := lb.prove([]cons{le(lb.lenLin(fill.Params[0]), linConst(0))}, b, nil, map[lvar]lin{}, 0)
+			c.Check(ok, rule, fname(fill), "nil is returned only for an empty pattern", "", "a non-empty password or salt would be replaced by the empty string", ret.Pos())
+			continue
+		}
+		n++
+		dbg("fillWithRepeats extra facts: %d; len(ret)=%s", len(lb.extra), linString(lb.lenLin(ret.Results[0])))
+		lbSite = true
+		ok2 := lb.prove([]cons{ge(lb.lenLin(ret.Results[0]), lb.lenLin(fill.Params[0]))}, b, nil, map[lvar]lin{}, 0)
+		lbSite = false
+		c.Check(ok2, rule, fname(fill), fmt.Sprintf("return #%d is at least as long as the pattern", n), "proved by LinBounds: v*ceil(len/v) >= len", "the expanded string can be shorter than the password/salt it is built from: trailing input bytes would not enter the key derivation (passwords sharing a prefix become interchangeable)", ret.Pos())
+	}
+	if n == 0 {
+		c.Undecided(rule, fname(fill), "returns", "no non-nil return found", fill.Pos())
+	}
+	// pbkdf: the first hash input is D || S || P with S, P the expansions of salt and password
+	be := newBigEnv(kdf, allParamNames(kdf))
+	found := false
+	for _, ci := range allCalls(kdf) {
+		call, ok := ci.(*ssa.Call)
+		if !ok || call.Call.Value != ssa.Value(kdf.Params[0]) {
+			continue
+		}
+		form := be.bytesOf(call.Call.Args[0], call).String()
+		if strings.Contains(form, "fillWithRepeats") {
+			found = true
+			okF := strings.Contains(form, "call:pkcs12.fillWithRepeats(salt,v)") && strings.Contains(form, "call:pkcs12.fillWithRepeats(password,v)") &&
+				strings.Index(form, "fillWithRepeats(salt,v)") < strings.Index(form, "fillWithRepeats(password,v)")
+			c.Check(okF, rule, fname(kdf), "the first hash input contains the expanded salt followed by the expanded password", "", "hash input is "+form, call.Pos())
+		}
+	}
+	if !found {
+		c.Undecided(rule, fname(kdf), "the first hash input contains the expanded salt followed by the expanded password", "no hash call over the expanded strings recognised", kdf.Pos())
 	}
 }
